@@ -34,7 +34,8 @@ def main():
         pid = p["id"]
         mp = os.path.join(V, "pv", "monitors", pid.lower() + ".py")
         c = consts(mp) if os.path.exists(mp) else {}
-        if not c.get("READY"):
+        approved = set(open(os.path.join(V, "tools", "approved.txt")).read().split())
+        if not c.get("READY") or pid not in approved:
             na.append({"property_id": pid, "reason": NOT_CLAIMED.get(pid, c.get("NOT_READY_REASON", "monitor not built yet (work in progress, see DESIGN.md section 6)"))})
             continue
         checks.append({
